@@ -655,7 +655,7 @@ def gen_net(rng, kinds, datum, band=None, lonclass=None, npts=None, ell=None, fe
     'clusters' (several observations per covariance block), 'mixed-cluster' (vectors and scalars in one block),
     'inline' (stdev / variance inside the observation), 'partial' (points with fixed height or fixed position only),
     'wide-angles' (angles above 200 gon are kept, otherwise left/right are swapped), 'angle-target-dh' (target heights
-    of angles)."""
+    of angles), 'idle-point' (a listed point without observations)."""
     features = set(features)
     if ell is None:
         how = str(rng.choice(["id", "id", "id", "ab", "af"]))
@@ -850,6 +850,16 @@ def gen_net(rng, kinds, datum, band=None, lonclass=None, npts=None, ell=None, fe
             continue
         net.clusters += make_clusters(rng, add, kinds, features - {"mixed-cluster"})
     net.clusters = [net.clusters[i] for i in rng.permutation(len(net.clusters))]
+    if "idle-point" in features:
+        # a point that is listed (free, with coordinates) but takes part in no observation
+        X = C0 + R0 @ np.array([1.3 * size, 0.0, 0.0], dtype=LD)
+        b, l, _ = ell.xyz2blh(X)
+        X = ell.blh2xyz(b, l, LD(h0))
+        X = np.array([float(round(float(v), 4)) for v in X], dtype=LD)
+        q = Pt("IDLE", X, dict(n="free", e="free", u="free"), geoid=0.0 if need_geoid else None)
+        items = list(net.pts.items())
+        items.insert(int(rng.integers(0, len(items) + 1)), ("IDLE", q))
+        net.pts = dict(items)
     # a cluster whose members are all inline must stay so; a cluster with mixed inline flags uses a cov-mat
     for c in net.clusters:
         if not all(o.inline for o in c.obs):
